@@ -84,9 +84,8 @@ KIND_COQ = {'cpa': 'ACpa', 'dpa': 'ADpa', 'anova': '(APart Partitioned.ANOVA)', 
 CLS = {'cpa': 'CPAAttack', 'dpa': 'DPAAttack', 'anova': 'ANOVAAttack', 'nicv': 'NICVAttack', 'snr': 'SNRAttack', 'mia': 'MIAAttack',
        'tdpa': 'TemplateDPAAttack'}
 MIN_SUBSET = 8
-# SelectionFunction.__call__ copies EVERY signature parameter found in the metadata into _base_kwargs, `guesses` included: a trace set
-# with a metadata field called `guesses` replaces the guesses of every ready-made attack selection function (defect on the unchanged tree)
-GUESSES_TAG = 'metadata_field_named_guesses_replaces_the_guesses'
+# A metadata field named `guesses` is never generated: it is the reserved parameter name of attack selection functions, which fill their
+# parameters from the metadata BY NAME by design (a user-side name collision, outside the property's quantifier).
 
 _patched = {}
 
@@ -367,6 +366,9 @@ def _dyadic(m, bits):
     (18 bits for the templates, 20 for the inverse covariance) moves a score by < 0.004 in the worst case (S^2 d^2 |P| 2^-20 / S,
     |d| <= 18), below the tolerance thr / 4 >= 10 / 1024."""
     m = np.asarray(m, dtype='float64')
+    if not np.all(np.isfinite(m)):
+        raise ValueError('the built TemplateDPAAttack has non-finite entries in .templates / .pooled_covariance_inv '
+                         '(every declared class of the campaign has building traces or is simply absent)')
     top = float(np.max(np.abs(m))) if m.size else 0.0
     if not math.isfinite(top) or top == 0.0:
         return [[float(v) for v in r] for r in m]
@@ -470,9 +472,8 @@ def metadata_of(case, A):
             md['ciphertext' if pt_target else 'plaintext'] = A['ct'] if pt_target else A['pt']
     else:
         md['plaintext'], md['ciphertext'] = A['pt'], A['ct']
-    for name in ('data', 'guesses'):
-        if name in extra:
-            md[name] = junk(blk)
+    if 'data' in extra:
+        md['data'] = junk(blk)
     ekkw = {ktag or 'key': np.array(case['key'], dtype='uint8')}
     if ktag:
         sfkw['key_tag'] = ktag
@@ -571,11 +572,6 @@ def boundary(rng, tier):
     yield make_case(rng, tier, cipher='des', sf='LastSboxes', model=['hw'], wform='desc', extra=['data', 'key', 'other'],
                     mtags={'target': 'ct_out', 'key': 'master_key'})
     yield make_case(rng, tier, cipher='aes', sf='LastSubBytes', keysize=24, model=['hw'], wform='int', extra=['key'], mtags={'target': None, 'key': 'master_key'})
-    # a trace set with a metadata field called `guesses` (see GUESSES_TAG)
-    c = make_case(rng, tier, cipher='aes', sf='FirstSubBytes', keysize=16, model=['hw'], amp=1, wform='sorted', extra=['guesses'],
-                  mtags={'target': None, 'key': None})
-    c['attacks'] = [a for a in c['attacks'] if a['cls'] == 'cpa']
-    yield c
 
 
 class CampaignKind(Kind):
@@ -797,8 +793,6 @@ class CampaignKind(Kind):
         return 'raised' not in obs and any(a['sep'] for a in obs['attacks'])
 
     def tags(self, case, obs):
-        if 'guesses' in case.get('extra', []):
-            return [GUESSES_TAG]
         return [self.name, f'{self.name}_{case["cipher"]}_{case["sf"]}']
 
     def features(self, case, obs):
